@@ -231,3 +231,9 @@ package cty
 //@   ensures[C04] marks_kept: (forall ((k Any)) (! (=> (or (select (marks_of val) k) (select (marks_of other) k)) (select (marks_of result) k)) :pattern ((select (marks_of result) k))))
 //@   ensures[C04] nomarks: (=> (and (is_number_ty t) (is_number_ty ot) (not (is_marked val)) (not (is_marked other))) (not (is_marked result)))
 //@   ensures[C06] wf: (wf_deep result)
+//
+//@ func (cty.Value).AsString
+//@   tags C02
+//@   requires (wf_deep val)
+//@   panics[C02] (or (is_marked val) (not (is_string_ty (vty val))) (is_null val) (not (is_known val)))
+//@   ensures[C02] value: (= result (str_of val))
